@@ -30,6 +30,8 @@ Inductive ev :=
 | ESlow                                 (* harness: the store stalls longer than the source teardown budget *)
 | ETerm | ENoTerm                       (* harness: WaitPipeline returned within the deadline after a force stop / did not *)
 | EWatched (st : status)                (* harness: status after watching for an automatic restart *)
+| EBoot                                 (* harness: fresh services on the same store, lifecycle Init about to run *)
+| EBooted (st : status)                 (* harness: Init returned; pipeline status afterwards *)
 | ERestart (snap : snapshot)            (* harness: about to start the pipeline again; durable positions *)
 | EPanic.
 
